@@ -68,6 +68,8 @@ X_ENUM_KW = 'no_enumerate_iterable_keyword'          # F08
 X_DYN_ONLY = 'no_dynamic_only_names'                 # F07
 X_EVAL_G_ONLY = 'no_eval_globals_without_locals'     # F28
 X_EVAL_NONE = 'no_eval_none_namespace'               # F29
+# F08, FC14a and FC14b were repaired in /repo (fix: commits); only F07 is still excluded
+ACTIVE_EXCL = {X_DYN_ONLY}
 
 BUILTINS = {'abs': abs, 'all': all, 'any': any, 'enumerate': enumerate, 'filter': filter, 'float': float, 'int': int,
             'len': len, 'map': map, 'print': print, 'range': range, 'sorted': sorted, 'zip': zip}
@@ -696,7 +698,7 @@ def call_cases(draw, excl=True):
   elif b == 'enumerate':
     it = draw(iterables())
     how_it = draw(st.sampled_from(['pos', 'pos', 'pos', 'kw']))
-    if how_it == 'kw' and excl:
+    if how_it == 'kw' and excl and X_ENUM_KW in ACTIVE_EXCL:
       meta.append('excluded:' + X_ENUM_KW)
       how_it = 'pos'
     meta.append('p:enumerate.iterable=' + how_it)
@@ -1036,7 +1038,7 @@ class _PB(object):
       kinds += ['super', 'super', 'super', 'supinfo']
     kinds += ['eval_g', 'eval_none']
     k = self.pick(set(kinds)) if self.draw(st.integers(0, 3)) == 0 else self.draw(st.sampled_from(kinds))
-    if self.excl and k in ('eval_g', 'eval_none'):
+    if self.excl and k in ('eval_g', 'eval_none') and (X_EVAL_G_ONLY if k == 'eval_g' else X_EVAL_NONE) in ACTIVE_EXCL:
       # known findings F28 / F29: redirected to the three-argument form
       flag = X_EVAL_G_ONLY if k == 'eval_g' else X_EVAL_NONE
       self.excluded[flag] = self.excluded.get(flag, 0) + 1
